@@ -37,7 +37,11 @@ pub use crate::tdes::{TdesEde2, TdesEde3, TdesEee2, TdesEee3};
 fn weak_key_test(key: u64) -> u8 {
     let mut is_weak = 0u8;
     for &weak_key in crate::consts::WEAK_KEYS {
-        is_weak |= u8::from(key == weak_key);
+        is_weak |= u8::from(key & KEY_BITS_MASK == weak_key & KEY_BITS_MASK);
     }
     is_weak
 }
+
+/// Mask selecting the 56 effective key bits: the least significant bit of every
+/// byte is a parity bit which is ignored by the cipher (byte order independent).
+pub(crate) const KEY_BITS_MASK: u64 = 0xFEFE_FEFE_FEFE_FEFE;
